@@ -58,7 +58,9 @@ CHECKS = {
              "transposition of every complete chain), each is replayed on the real classes and closed with "
              "assert_applies on four architectures; the trace specification requires an error wherever the automaton "
              "classifies the state incomplete or contradictory and at every rejected call. Misspelt / too-deep names on "
-             "random architectures and all 64 entry-point option combinations are validated the same way.",
+             "random architectures and on level-limited scans, diagrams naming a component that is no module (on "
+             "architectures that also violate the rest of the diagram) and all 64 entry-point option combinations are "
+             "validated the same way.",
         design_ref="6 (C13)"),
     "C16": dict(
         technique="TLA+ builder automata (Builders!ArchStep, LRuleStep) model-checked with TLC (well-formedness "
@@ -68,7 +70,9 @@ CHECKS = {
              "well-formed definitions that list exactly what accepted calls supplied; every history (string and list "
              "forms, duplicates forced by two layer names and two module names) is replayed on real objects, each "
              "call's accept/reject outcome and the definition shown by architecture[layer] / str() are validated step "
-             "by step; LayerRule histories likewise (architecture first, exactly one subject layer).",
+             "by step; a second vocabulary (three layers, three modules, alternating layer / module calls, all 11 113 "
+             "histories up to six calls) covers guards that must look at every earlier layer; LayerRule histories likewise "
+             "(architecture first, exactly one subject layer).",
         design_ref="6 (C16)"),
     "C05": dict(
         technique="TLA+ specification of layer semantics (LayerSem.tla) model-checked with TLC; TLC-emitted states "
@@ -131,8 +135,9 @@ CHECKS = {
              "set TLC prints per pattern is compared with re.match(convert_partial_match_to_regex(p), s) and FileFilter. "
              "Bounded-model projects x every entry x six pattern shapes (and independently translated regex_exclusions, "
              "pattern pairs, literal-text regexes, module_path below the root) and seeded random trees with "
-             "regex-metacharacter names are scanned with and without the exclusion; modules, imports and the "
-             "'exactly the matching sub trees disappear' law are validated.",
+             "regex-metacharacter names are scanned with and without the exclusion (also with externals included: an "
+             "excluded module that a remaining file imports must stay away); modules, imports and the 'exactly the "
+             "matching sub trees disappear' law are validated.",
         design_ref="6 (C08)"),
     "C09": dict(
         technique="Scan!Quotient; TLC proves on MC_Scan that the quotient preserves the verdict of every strict rule above "
@@ -140,8 +145,8 @@ CHECKS = {
                   "verdicts of rules on both are related by law events validated by Trace_Scan.tla",
         text="The level-limited architecture must equal the unlimited one with every name truncated to len(module_path)+k "
              "components (imports: images of imports, self-imports dropped). Every bounded-model project and seeded "
-             "random projects are scanned with k in 1..depth at module_path equal to and below the root (with and "
-             "without externals); the trace specification checks the limited scan against the quotient of the unlimited "
+             "random projects are scanned with k in 1..depth (and beyond) at module_path equal to and below the root, with "
+             "and without externals and exclusions (also imports of excluded modules); the trace specification checks the limited scan against the quotient of the unlimited "
              "scan and that strict rules whose names lie above the limit have the same verdict on both.",
         design_ref="6 (C09)"),
     "C10": dict(
@@ -178,8 +183,10 @@ CHECKS = {
              "40 calls generated by tlc -simulate interleave module rules, layer rules and diagram rules on shared "
              "evaluables with rule objects re-applied to several architectures; every Apply is also evaluated in "
              "isolation and must give the same verdict and message, and every step leaves all architectures unchanged. "
-             "Permuted subject/object/layer/exclusion lists, shuffled directory enumeration and re-scans are related by "
-             "'same' laws, and a mixed bag of episodes is run in fresh interpreters under 8 PYTHONHASHSEED values whose "
+             "Permuted / duplicated subject, object, layer and exclusion lists, shuffled directory enumeration and re-scans "
+             "are related by 'same' laws; the same rules, layer rules, visualize calls and scans are run in two orders "
+             "and compared call by call; graph construction is compared between shuffled listings of the same modules "
+             "and imports; and a mixed bag of episodes is run in fresh interpreters under 8 PYTHONHASHSEED values whose "
              "traces must be identical.",
         design_ref="6 (C15)"),
     "C17": dict(
@@ -192,7 +199,9 @@ CHECKS = {
              "trees/maps (nested aliases, alias texts with dots and regex metacharacters, spacing option, random drawing "
              "options) are passed to the real visualize(); the keyword arguments received by the drawing backend are "
              "validated: every module labelled exactly once with the specified label, unknown aliased module rejected "
-             "naming it, other options unchanged; each call repeated under collision-free and adversarial renamings.",
+             "naming it, other options unchanged; each call repeated under collision-free and adversarial renamings, on "
+             "level-limited architectures (aliases for modules below the limit name no module) and on shuffled module "
+             "listings with implicit parent packages.",
         design_ref="6 (C17)"),
 }
 
